@@ -94,4 +94,13 @@ CHECKS['C17'] = {
   'technique': 'sibling agreement over extracted canonical fragments, natural-loop analysis, header partial evaluation, must-pass cuts',
 }
 
+CHECKS['C02'] = {
+  'text': 'Decides structural necessary conditions of the finite-map behaviour: sibling agreement of the probe fragments across '
+          'get/mem/rem/insert, a replace-on-equal test that cannot miss an equal resident, KeyError/false on every miss exit, no '
+          'modulo by a zero slot count, count/slot bookkeeping pairing, wrap-aware whole-record back-shift, symbolic agreement of '
+          'every record-layout offset, scratch-record lifetime. Does not decide the robin-hood ordering invariant over all key sets.',
+  'note': ASSUME,
+  'technique': 'sibling agreement over extracted probe fragments, polynomial layout comparison, guard dominance, header partial evaluation',
+}
+
 NOT_APPLICABLE = {}
